@@ -473,6 +473,11 @@ func CellOrigin(v ssa.Value) ssa.Value {
 		n := 0
 		for _, ref := range *cell.Referrers() {
 			if st, ok := ref.(*ssa.Store); ok && st.Addr == ssa.Value(cell) {
+				// a result cell stored back into itself (`return named, results` next to a defer) is not a second
+				// origin
+				if ld, isLd := st.Val.(*ssa.UnOp); isLd && ld.X == ssa.Value(cell) {
+					continue
+				}
 				stored, n = st.Val, n+1
 			}
 		}
